@@ -44,6 +44,17 @@ pub fn build(rng: &mut Rng, o: &mut Outcome) -> Spreadsheet {
             o.count("tables", 1);
         }
     }
+    if rng.chance(1, 6) {
+        // a sheet with row / column settings and not a single cell
+        let name = format!("No cells {}", uid);
+        if book.new_sheet(name.as_str()).is_ok() {
+            let ws = book.get_sheet_by_name_mut(&name).unwrap();
+            ws.get_row_dimension_mut(&rng.range(1, 9)).set_height(33.0);
+            ws.get_row_dimension_mut(&rng.range(10, 19)).set_style(rng.pick(&styles).clone());
+            ws.get_column_dimension_by_number_mut(&3).set_width(21.0);
+            o.feat("sheet-without-cells");
+        }
+    }
     if rng.chance(1, 5) {
         // a chart (drawing part, chart part, their relationships and content types)
         let si = rng.below(n as u64) as usize;
